@@ -61,3 +61,5 @@ package messages
 //@   modifies newrows(bytes)
 //@ func (*store).Consume(ctx context.Context, consumerName string, f func(uint64, *packet.Publish) error) (err error)
 //@   requires s != nil && s.log != nil
+//@ trusted func github.com/vx-labs/commitlog/stream.FromOffset(o int64) (r stream.consumerOpts)
+//@   modifies nothing
